@@ -180,8 +180,9 @@ def r4_cycles(a, tier):
     rep = RuleReport(
         'C14.R4',
         'cycle bookkeeping in asjson: the membership test `id in seen` precedes the descent, every recursive descent (dfs(...) / '
-        '__json__(seen=...)) happens after seen.add(id), and seen.discard(id) runs on every exit after the add (finally)',
-        floor=1,
+        '__json__(seen=...)) happens after seen.add(id), and seen.discard(id) runs on every exit after the add (finally); every function '
+        'that is given the visited set passes it on to each asjson()/__json__() call it makes',
+        floor=3,
     )
     fn = a.p.func('tatsu.util.asjson.asjson.dfs')
 
@@ -209,6 +210,31 @@ def r4_cycles(a, tier):
         rep.fail(fn.qualname, 'no-membership-test', 'asjson.dfs no longer tests `id in seen`: a cyclic structure recurses forever', fn.loc)
     if 'descent_before_mark' in flags_all:
         rep.fail(fn.qualname, 'descent-before-mark', 'asjson.dfs descends into children before marking the node as seen', fn.loc)
+    # the visited set is threaded through every protocol hop: a function that receives it (parameter `seen`) hands it to every
+    # asjson(...) / <x>.__json__(...) it calls, and so does every function that closes over it (asjson.dfs)
+    accepts = {f.qualname for f in a.p.functions.values() if 'seen' in f.params and (f.name in ('asjson', '__json__'))}
+    for f in a.p.functions.values():
+        if not f.module.name.startswith('tatsu.') or f.module.name.startswith(('tatsu.tool', 'tatsu.boot.bootstrap')):
+            continue
+        has_seen = 'seen' in f.params or (f.parent is not None and 'seen' in f.parent.params)
+        if not has_seen:
+            continue
+        for n in walk_no_defs(f.node):
+            if not isinstance(n, ast.Call):
+                continue
+            nm = dotted(n.func).split('.')[-1]
+            if nm not in ('asjson', '__json__'):
+                continue
+            passed = any(k.arg == 'seen' and isinstance(k.value, ast.Name) and k.value.id == 'seen' for k in n.keywords) or (
+                nm == 'asjson' and len(n.args) >= 2 and isinstance(n.args[1], ast.Name) and n.args[1].id == 'seen') or (
+                nm == '__json__' and len(n.args) >= 1 and isinstance(n.args[0], ast.Name) and n.args[0].id == 'seen')
+            rep.add({'function': f.qualname, 'descent': norm(n)[:70], 'passes_the_visited_set': passed})
+            if not passed:
+                rep.fail(f.qualname, f'seen-not-threaded:{nm}', f'`{norm(n)[:80]}` in {f.name}() starts a conversion without the visited '
+                         f'set it was given: each object reached through it begins with an empty set, so a reference cycle through two '
+                         f'such objects is never recognised and asjson recurses until RecursionError', f'{f.module.relpath}:{n.lineno}')
+    if not accepts:
+        raise AnalysisError('no asjson/__json__ accepting `seen` found')
     if leaked:
         rep.fail(fn.qualname, 'mark-leaked', 'an exit of asjson.dfs leaves the node marked as seen (no discard): a shared (not cyclic) '
                  'reference later in the structure is rendered as a reference string instead of its value', fn.loc)
